@@ -7,26 +7,33 @@ SHRINK_BUDGET = 300
 TRUSTED = [
     "Lean 4 kernel; axioms of every theorem audited (propext, Classical.choice, Quot.sound at most)",
     "hand-written model lean/CppUModel/Model/Registry.lean (runAllTests loop, match/shouldRun loops, TestResult counters, "
-    "IgnoredUtestShell, UtestShellPointerArray copy/shuffle/reverse/relink over an explicit next-pointer map), tied to "
-    "TestRegistry.cpp / Utest.cpp / TestFilter.cpp / TestResult.cpp by the h_c02 correspondence of this run",
+    "IgnoredUtestShell with its per-shell flag, UtestShellPointerArray copy/shuffle/reverse/relink over an explicit next-pointer map, "
+    "unDoLastAddTest, findTestWithName/Group, countTests, getTestWithNext, the three list modes, CommandLineTestRunner's repeat loop), "
+    "tied to TestRegistry.cpp / Utest.cpp / TestFilter.cpp / TestResult.cpp / CommandLineTestRunner.cpp by the h_c02 correspondence of this run",
     "translate/extract_registry.py: regenerates the loop-free decision functions (TestFilter::match, shouldRun's conjunction, "
-    "endOfGroup, IgnoredUtestShell::runOneTest's branch, the shuffle modulus) and shape-checks the loops the model was written from",
-    "SimpleString::contains / operator== mean Text.isInfix / == (property C13 links SimpleString's code to those definitions)",
+    "endOfGroup, IgnoredUtestShell::runOneTest's branch, the shuffle modulus) and shape-checks every loop the model was written from",
+    "SimpleString::contains / operator== / replace / endsWith / subString mean Text.isInfix / == / Text.replaceAll / ... (property C13 links "
+    "SimpleString's code to those definitions; composition theorems in Props/C02x.lean); the harness still runs the real SimpleString, "
+    "so a defective StrStr shows up as a selection that is not the documented one",
     "the values PlatformSpecificRand returns are an input (observed at the function-pointer seam and fed to the model)",
+    "the command line parser (C12) maps -g/-sg/-xg/-xsg/-n/-sn/-xn/-xsn/-ri/-rN/-sSEED/-b/-lg/-ln/-ll to the arguments the runner model takes",
 ]
 ASSUMPTIONS = [
     "counters are size_t and do not wrap (Nat in the model)",
     "every shell is registered once (a shell added twice makes the C++ list cyclic; outside the quantifier)",
     "group and name are NUL-terminated C strings (no embedded NUL)",
-    "the per-shell runIgnored_ flag of IgnoredUtestShell is only ever set by the registry loop (nobody calls shell->setRunIgnored() "
-    "directly); under that invariant it equals the registry's flag where it is read (theorem ignored_flag_is_registry_flag)",
+    "scripted test bodies never fail (the runner's return value is then the number of repetitions that ran nothing)",
+    "list modes: the rendering theorem for names without '#' (list_accumulation_full) is not proved; the oracle checks it on the "
+    "implementation's output in every run",
 ]
 RULE = ("registries of 0..200 scripted shells (normal and ignored) with group/name strings over a three-letter alphabet "
-        "(substrings, equal names, empty strings and split groups frequent), 0..4 filters of each of the 8 kinds "
-        "(group/name x substring/strict/inverted/strict+inverted), a third of the cases building the filters through the real "
-        "CommandLineArguments parser, run-ignored, reverse, shuffle with real rand() and with scripted streams (incl. negative "
-        "values), repeated runs; non-trivial = a run in which some but not all tests are selected, or a shuffle/reverse of >= 3 tests "
-        "followed by a run; distinct = distinct op sequences")
+        "(substrings, equal names, empty strings and split groups frequent; in 30% of the cases self-overlapping filter texts with "
+        "names in which the match starts inside a failed partial match), 0..4 filters of each of the 8 kinds, a third of the cases "
+        "building the filters through the real CommandLineArguments parser, run-ignored on the registry and on single shells, reverse, "
+        "shuffle with real rand() and with scripted streams (incl. negative values), repeated runs, the real CommandLineTestRunner "
+        "with -rN / -sSEED / -b / -lg / -ln / -ll, unDoLastAddTest, findTestWithName/Group, countTests, getTestWithNext, willRun; "
+        "non-trivial = a run in which some but not all tests are selected, or a shuffle/reverse/runner on >= 3 tests followed by a run; "
+        "distinct = distinct op sequences")
 
 ALPHA = "abA"
 
@@ -44,22 +51,64 @@ def rstr(rng, maxlen=3, alpha=ALPHA):
     return "".join(rng.choice(alpha) for _ in range(n))
 
 
-def gen_tests(rng, n, alpha=ALPHA, maxlen=3):
+def overlap_pair(rng, alpha="ab"):
+    """(needle, haystack): the needle has a proper prefix that re-occurs inside it and the haystack
+    holds an occurrence that starts inside a failed partial match (`aab` in `aaab`,
+    `TestTimeout` in `TestTestTimeout`): a search that never backs up misses it"""
+    x = rng.random()
+    if x < 0.15:
+        needle = rng.choice(["TestTimeout", "abab", "aab", "aaab", "abaabab", "AAa"])
+    else:
+        u = "".join(rng.choice(alpha) for _ in range(rng.randint(1, 2)))
+        needle = u * rng.randint(1, 2) + "".join(rng.choice(alpha) for _ in range(rng.randint(1, 3)))
+    k = rng.randint(1, max(1, len(needle) - 1))
+    hay = needle[:k] + needle
+    if rng.random() < 0.4:
+        hay = rstr(rng, 2, alpha) + hay
+    if rng.random() < 0.4:
+        hay = hay + rstr(rng, 2, alpha)
+    return needle, hay
+
+
+def single_pass_contains(h, n):
+    """the defective search the overlap cases are aimed at (used only for the histogram)"""
+    if not n:
+        return True
+    m = 0
+    for c in h:
+        if c == n[m]:
+            m += 1
+            if m == len(n):
+                return True
+        else:
+            m = 1 if c == n[0] else 0
+            if m == len(n):
+                return True
+    return False
+
+
+def gen_tests(rng, n, alpha=ALPHA, maxlen=3, hays=()):
     """group names come in runs (as TEST_GROUPs do) but a group can reappear later (split group)"""
     ops = []
     pool = [rstr(rng, maxlen, alpha) for _ in range(rng.randint(1, 4))]
+    if hays and rng.random() < 0.5:
+        pool.append(rng.choice(hays))
     g = rng.choice(pool)
     for _ in range(n):
         if rng.random() < 0.35:
             g = rng.choice(pool) if rng.random() < 0.8 else rstr(rng, maxlen, alpha)
         kind = "i" if rng.random() < 0.3 else "n"
-        ops.append("test %s %s %s" % (kind, hx(g), hx(rstr(rng, maxlen, alpha))))
+        name = rng.choice(hays) if hays and rng.random() < 0.3 else rstr(rng, maxlen, alpha)
+        ops.append("test %s %s %s" % (kind, hx(g), hx(name)))
     return ops
 
 
-def gen_filters(rng, alpha=ALPHA, maxlen=3, pool=()):
-    """0-4 filters of each of the 8 kinds; texts are random strings or strings the tests use"""
+def gen_filters(rng, alpha=ALPHA, maxlen=3, pool=(), needles=()):
+    """0-4 filters of each of the 8 kinds; texts are random strings, strings the tests use, or
+    self-overlapping needles"""
     def text():
+        if needles and rng.random() < 0.6:
+            return rng.choice(needles)
         if pool and rng.random() < 0.4:
             return rng.choice(pool)
         return rstr(rng, maxlen, alpha)
@@ -69,11 +118,12 @@ def gen_filters(rng, alpha=ALPHA, maxlen=3, pool=()):
 
     ops = []
     mode = rng.random()
-    if mode < 0.12:
+    if mode < 0.12 and not needles:
         return ops
-    if mode < 0.62:
+    if mode < 0.62 or needles:
         for _ in range(rng.choice([1, 1, 2, 2, 3])):
-            ops.append(one(rng.choice(["gfilter", "nfilter"]), rng.randrange(4)))
+            flags = rng.choice([0, 0, 2]) if needles and rng.random() < 0.7 else rng.randrange(4)
+            ops.append(one(rng.choice(["gfilter", "nfilter"]), flags))
         return ops
     for kind in ("gfilter", "nfilter"):
         for flags in range(4):
@@ -83,23 +133,58 @@ def gen_filters(rng, alpha=ALPHA, maxlen=3, pool=()):
     return ops
 
 
-def scripted(rng, n):
+def scripted(rng, n, reps=1):
     """a scripted random stream for n tests: boundary values of `% (i+1)`, negatives, huge values"""
     out = []
     style = rng.randrange(4)
-    for i in range(n - 1, 0, -1):
-        if style == 0:
-            v = 0
-        elif style == 1:
-            v = i
-        elif style == 2:
-            v = rng.choice([0, i, i + 1, i - 1, 2147483647, -1, -2147483648, -(i + 1), 1])
-        else:
-            v = rng.randint(-5, 5 * i + 5)
-        out.append(str(v))
+    for _ in range(reps):
+        for i in range(n - 1, 0, -1):
+            if style == 0:
+                v = 0
+            elif style == 1:
+                v = i
+            elif style == 2:
+                v = rng.choice([0, i, i + 1, i - 1, 2147483647, -1, -2147483648, -(i + 1), 1])
+            else:
+                v = rng.randint(-5, 5 * i + 5)
+            out.append(str(v))
     if rng.random() < 0.2 and out:
         out = out[:rng.randrange(len(out))]      # too short: the rest comes from the real rand()
     return out
+
+
+def gen_queries(rng, n, pool):
+    """registry queries, per-shell run-ignored, list modes: a few of them"""
+    ops = []
+    for _ in range(rng.choice([0, 1, 1, 2, 4])):
+        x = rng.random()
+        if x < 0.2:
+            ops.append("find %s %s" % (rng.choice(["name", "group"]), hx(rng.choice(pool) if pool and rng.random() < 0.7 else rstr(rng))))
+        elif x < 0.3:
+            ops.append("count")
+        elif x < 0.5:
+            ops.append("prev %s" % ("null" if rng.random() < 0.2 or n == 0 else rng.randrange(n)))
+        elif x < 0.65 and n:
+            ops.append("shellri %d" % rng.randrange(n))
+        elif x < 0.75:
+            ops.append("willrun")
+        elif x < 0.95:
+            ops.append("list %s" % rng.choice(["lg", "ln", "ln", "ll"]))
+        else:
+            ops.append("undo")
+    return ops
+
+
+def gen_runner(rng, n):
+    rep = rng.choice([0, 1, 2, 2, 3])
+    lst = rng.choice(["none"] * 5 + ["lg", "ln", "ll"])
+    seed = "-"
+    extra = []
+    if rng.random() < 0.5:
+        seed = str(rng.choice([1, 2, 7, 42, 4294967295, rng.randrange(1, 1 << 32)]))
+        if rng.random() < 0.3:
+            extra = scripted(rng, n, max(1, rep))
+    return ("runner rep=%d seed=%s rev=%d list=%s %s" % (rep, seed, rng.random() < 0.3, lst, " ".join(extra))).strip()
 
 
 def gen_case(rng, tier, malformed=False):
@@ -115,23 +200,31 @@ def gen_case(rng, tier, malformed=False):
         n = rng.randint(41, big)
     alpha, maxlen = ALPHA, 3
     if malformed:
-        alpha = rng.choice(["ab.,()-", "a", "ab\x7f\x80\xff ", "abAB", "-gsxnt"])
+        alpha = rng.choice(["ab.,()-", "a", "ab\x7f\x80\xff ", "abAB", "-gsxnt", "ab# "])
         maxlen = rng.choice([3, 8, 40])
+    needles, hays = [], []
+    if not malformed and rng.random() < 0.3:
+        for _ in range(rng.randint(1, 2)):
+            nd, hy = overlap_pair(rng)
+            needles.append(nd)
+            hays += [hy, hy, nd]
     ops = []
     if rng.random() < 1 / 3:
         ops.append("cmdline")
-    tests = gen_tests(rng, n, alpha, maxlen)
+    tests = gen_tests(rng, n, alpha, maxlen, hays)
     pool = []
     for t in tests:
         w = t.split()
         pool += [bytes.fromhex(x).decode("latin-1") if x != "-" else "" for x in w[2:4]]
-    filters = gen_filters(rng, alpha, maxlen, pool)
+    filters = gen_filters(rng, alpha, maxlen, pool, needles)
     if rng.random() < 0.5:
         ops += tests + filters
     else:
         ops += filters + tests
     if rng.random() < 0.4:
         ops.insert(rng.randrange(len(ops) + 1), "runignored")
+    if rng.random() < 0.35:
+        ops += gen_queries(rng, n, pool)
     reps = rng.choice([1, 1, 2, 3])
     for rep in range(reps):
         k = rng.random()
@@ -144,15 +237,22 @@ def gen_case(rng, tier, malformed=False):
             if malformed and rng.random() < 0.5:
                 ops.append("reverse")
                 ops.append("shuffle %d" % rng.randrange(1 << 32))
-        ops.append("run")
+        if rng.random() < 0.3:
+            ops.append(gen_runner(rng, n))
+        else:
+            ops.append("run")
+        if rng.random() < 0.25:
+            ops += gen_queries(rng, n, pool)
         if rng.random() < 0.15:
             # the registry changes between repetitions: more tests / more filters / run-ignored switched on
-            ops += gen_tests(rng, rng.randint(1, 3), alpha, maxlen)
+            more = gen_tests(rng, rng.randint(1, 3), alpha, maxlen)
+            ops += more
+            n += len(more)
             if rng.random() < 0.5:
                 ops.append("%s %d %s" % (rng.choice(["gfilter", "nfilter"]), rng.randrange(4), hx(rstr(rng, maxlen, alpha))))
             if rng.random() < 0.3:
                 ops.append("runignored")
-            ops.append("run")
+            ops.append("run" if rng.random() < 0.7 else gen_runner(rng, n))
     return ops
 
 
@@ -166,19 +266,41 @@ def generate(rng, tier):
     return out
 
 
+def signature(r):
+    """coarse, shrink-stable class of a failing case: the oracle's message without the concrete
+    ids, counts and printed texts"""
+    import re
+    if r.crash:
+        w = r.crash.split()
+        return "crash:" + (w[1] if len(w) > 1 else "")
+    if r.spec and r.spec.startswith("spec FAIL"):
+        m = r.spec[len("spec FAIL"):]
+        m = re.sub(r"`[^`]*`", "`..`", m)
+        m = re.sub(r"\[[^\]]*\]", "[..]", m)
+        m = re.sub(r"\(some \d+\)", "(some N)", m)
+        m = re.sub(r"op#\d+", "op", m)
+        m = re.sub(r"(runner|shuffle|find|prev|list|shellri) \S+:", r"\1:", m)
+        m = re.sub(r"\d+", "N", m)
+        return "spec:" + m.strip()[:140]
+    if not r.agree:
+        return "diff"
+    return ""
+
+
 def translate(ctx):
     from translate import extract_registry
     return extract_registry.run()
 
 
 def _runs(r):
-    """(counts, n_tests) of every run of the case, from the implementation's lines"""
+    """counters of every run of the case (direct runs and runner repetitions), from the implementation's lines"""
     out = []
     for l in r.impl:
-        if l.startswith("counts "):
-            w = l.split()
-            if len(w) == 5:
-                out.append(tuple(int(x) for x in w[1:]))
+        w = l.split()
+        if w and w[0] == "rep" and len(w) == 7 and w[2] == "counts":
+            w = w[2:]
+        if w and w[0] == "counts" and len(w) == 5:
+            out.append(tuple(int(x) for x in w[1:]))
     return out
 
 
@@ -187,7 +309,11 @@ def nontrivial(r):
         if 0 < filt < t:
             return True
     n = sum(1 for l in r.ops if l.startswith("test "))
-    return n >= 3 and any(l.startswith(("shuffle", "reverse")) for l in r.ops) and "run" in r.ops
+    return n >= 3 and any(l.startswith(("shuffle", "reverse", "runner")) for l in r.ops) and any(l.startswith(("run",)) for l in r.ops)
+
+
+def _unhex(x):
+    return "" if x == "-" else bytes.fromhex(x).decode("latin-1")
 
 
 def observe(r, rep):
@@ -206,34 +332,59 @@ def observe(r, rep):
         if ign:
             rep.count("run.with_ignored_counted")
     for l in r.impl:
-        if l.startswith("cb "):
+        if l.startswith(("cb ", "stream ")):
             toks = l.split()[1:]
             gs = sum(1 for x in toks if x.startswith("gs"))
             rep.count("callbacks.group_blocks", gs)
+            for i in range(len(toks) - 1):
+                if toks[i].startswith("gs") and toks[i + 1] == "ge":
+                    rep.count("branch.group_entirely_filtered_out")
         elif l.startswith("rands ") and len(l.split()) > 1:
             rep.count("branch.shuffle_nonempty")
+    names, groups = [], []
+    for l in r.ops:
+        w = l.split()
+        if w[0] == "test" and len(w) >= 4:
+            groups.append(_unhex(w[2])); names.append(_unhex(w[3]))
     for l in r.ops:
         w = l.split()
         if w[0] in ("gfilter", "nfilter"):
             rep.count("filter.%s.%s" % (w[0][0], ["substring", "strict", "inverted", "strict+inverted"][int(w[1]) & 3]))
             if w[2] == "-":
                 rep.count("filter.empty_text")
+            if (int(w[1]) & 1) == 0:
+                nd = _unhex(w[2])
+                for h in (groups if w[0] == "gfilter" else names):
+                    if nd in h and not single_pass_contains(h, nd):
+                        rep.count("filter.match_needs_backing_up")
+                        break
         elif w[0] == "shuffle" and len(w) > 2:
             rep.count("branch.shuffle_scripted_stream")
+        elif w[0] == "runner":
+            rep.count("runner.%s" % [x for x in w if x.startswith("list=")][0])
+            if "rev=1" in w:
+                rep.count("runner.reversing")
+            if "seed=-" not in w:
+                rep.count("runner.shuffling")
+            rep.count("runner." + [x for x in w if x.startswith("rep=")][0])
 
 
 LEVEL_TEXT = ("Machine-checked Lean 4 theorems over an executable model of TestRegistry::runAllTests, UtestShell::match/shouldRun, "
-              "TestFilter::match, the TestResult counters, IgnoredUtestShell and UtestShellPointerArray, for all registries, filter "
-              "lists, run-ignored settings and random streams of any length: run + ignored + filtered-out = number of tests; a test is "
-              "selected iff the documented OR-within-kind / AND-across-kinds / substring|exact|negated reading holds (stated with "
-              "List.IsInfix); the started tests are exactly the selected ones in list order, each body executed once; shuffle is a "
-              "permutation for every random stream, reverse is the exact reverse, array -> relinked next pointers -> list is the array "
-              "(given distinct shells); group start/end callbacks are balanced for every order. The decision functions are regenerated "
-              "from the source on every run; the model is tied to the code by a differential harness (real registry, scripted shells, "
-              "real filters and parser, rand() observed at the seam, ASan/UBSan) and the implementation's observations are judged by an "
-              "independent specification oracle.")
+              "TestFilter::match, the TestResult counters, IgnoredUtestShell (per-shell flag, willRun), UtestShellPointerArray, "
+              "unDoLastAddTest / findTestWith* / countTests / getTestWithNext, the list modes and CommandLineTestRunner's repeat loop, for all "
+              "registries, filter lists, run-ignored settings, repeat counts and random streams of any length: run + ignored + filtered-out = "
+              "number of registered tests; a test is selected iff the documented OR-within-kind / AND-across-kinds / substring|exact|negated "
+              "reading holds (stated with List.IsInfix); the started tests are exactly the selected ones in list order, each body executed "
+              "once; in EVERY repetition of the runner (shuffle re-seeded and applied to the previous order) the same tests start and run, "
+              "each once, with identical counters; shuffle is a permutation for every random stream, reverse is the exact reverse, array -> "
+              "relinked next pointers -> list is the array (given distinct shells); group start/end callbacks are balanced and sit at the "
+              "block boundaries for every order; list modes run nothing and -ln lists exactly the selected tests. The decision functions are "
+              "regenerated from the source on every run; the model is tied to the code by a differential harness (real registry, runner, "
+              "parser, filters and SimpleString, scripted shells, rand() observed at the seam, ASan/UBSan) and the implementation's "
+              "observations are judged by an independent specification oracle.")
 LEVEL_NOTE = ("Trusted: Lean kernel; the hand-written model of the loops (validated against the code by the correspondence of this run); "
-              "the extractor for the loop-free decision functions; SimpleString::contains/== as Text.isInfix/== (C13). Observed only, not "
-              "proved about the compiled code: that the C++ loops are the model's loops (differential runs), behaviour of rand().")
-TECHNIQUE = ("Lean 4 induction/invariant proofs over an executable model (explicit next-pointer heap for the relink) + regenerated "
-             "decision functions + differential correspondence harness with an independent specification oracle")
+              "the extractor for the loop-free decision functions and the loop shapes; SimpleString operations as their Text.* reference "
+              "(C13 / C02x). Observed only, not proved: that the C++ loops are the model's loops (differential runs), behaviour of rand(), "
+              "the exact rendering of -lg/-ln for '#'-free names (list_accumulation_full, checked by the oracle on every run).")
+TECHNIQUE = ("Lean 4 induction/invariant proofs over an executable model (explicit next-pointer heap for the relink, key-multiset invariant "
+             "for the repeat loop) + regenerated decision functions + differential correspondence harness with an independent specification oracle")
